@@ -169,7 +169,7 @@ pub fn worker_runs(
         // every fifth run: one hard I/O error somewhere in the middle, then the history goes on
         let hard_fault = (i % 5 == 2 && !chaos).then(|| {
             let mut fr = crate::rng::Rng::sub(seed, "mid-history-fault");
-            let calls = history.ops.iter().filter(|o| !matches!(o, Op::PlainFile { .. } | Op::MkDir { .. } | Op::Symlink { .. } | Op::HardLink { .. } | Op::Implicit { .. } | Op::SpecDir { .. } | Op::TopSymlink { .. } | Op::SbomLink { .. } | Op::TomlLink { .. } | Op::ExecDAlias { .. } | Op::ChmodLayer { .. } | Op::Restore { .. })).count().max(1);
+            let calls = history.ops.iter().filter(|o| !matches!(o, Op::PlainFile { .. } | Op::MkDir { .. } | Op::Symlink { .. } | Op::HardLink { .. } | Op::Implicit { .. } | Op::SpecDir { .. } | Op::TopSymlink { .. } | Op::SbomLink { .. } | Op::TomlLink { .. } | Op::ExecDAlias { .. } | Op::ChmodLayer { .. } | Op::ChmodToml { .. } | Op::RewriteSource { .. } | Op::Restore { .. })).count().max(1);
             (
                 1 + fr.usize(calls),
                 1 + fr.below(14) as i64,
@@ -291,6 +291,10 @@ pub fn world_root(scratch: &Path, name: &str, seed: u64) -> std::path::PathBuf {
     if seed % 4 == 1 {
         let _ = std::fs::create_dir_all(scratch.join("dots"));
         scratch.join("dots").join("..").join(name)
+    } else if seed % 8 == 2 {
+        // a directory name holding the path-list separator (job:42): ugly but legal
+        let _ = std::fs::create_dir_all(scratch.join("job:42"));
+        scratch.join("job:42").join(name)
     } else {
         scratch.join(name)
     }
